@@ -18,6 +18,7 @@ import ast
 
 from ..absint import Evaluator, Interp, TOP, fin, big, boolean, Unsupported, NONE
 from ..astutil import text, access_path, access_paths_in, is_const, const_value, fold
+from ..terms import Terms
 from ..loader import where, AnalysisError
 
 
@@ -333,7 +334,14 @@ def check_hash(ctx, mod, cls, cname):
         ctx.violated("R3", construct, where(mod, fn), "__hash__ returns nothing")
         return
     ok = True
-    for r in rets:
+    TH = Terms(fn)
+    tmap = {id(st_): t_ for st_, t_ in TH.returns}
+    import copy as _copy
+    for r0 in rets:
+        # the returned value with temporaries looked through
+        r = _copy.copy(r0)
+        if tmap.get(id(r0)) is not None:
+            r.value = tmap[id(r0)]
         paths = {p for p in access_paths_in(r.value) if p == selfn or p.startswith(selfn + ".") or p.startswith(selfn + "[")}
         others = {p for p in paths if not (p == selfn + ".vector" or p.startswith(selfn + ".vector["))}
         calls = [access_path(c.func) for c in ast.walk(r.value) if isinstance(c, ast.Call)]
